@@ -8,4 +8,18 @@ void mk_table_dsm(std::vector<MD>* out) { new (out) std::vector<MD>(GetDecodeTab
 void decode_dsm(MD* out, u16 o) { new (out) MD(Decode<D>(o)); }
 bool dsm_needexp(u16 o) { return Teakra::Disassembler::NeedExpansion(o); }
 bool dsm_matches(const MD* m, u16 o) { return m->Matches(o); }
+// one row's renderer through the real Matcher::call; the token list is left in *out (C05 text injectivity)
+void dsm_callm(const MD* m, D* d, u16 o, u16 e, std::vector<std::string>* out) { new (out) std::vector<std::string>(m->call(*d, o, e)); }
+void dsm_do(std::string* out, u16 o, u16 e) { new (out) std::string(Teakra::Disassembler::Do(o, e, std::nullopt)); }
+#ifdef NATIVE_TWIN
+// replay: the real GetTokenList / Do on concrete words
+int dsm_same_text(u16 o1, u16 e1, u16 o2, u16 e2) { return Teakra::Disassembler::GetTokenList(o1, e1, std::nullopt) == Teakra::Disassembler::GetTokenList(o2, e2, std::nullopt); }
+int dsm_do_is_join(u16 o, u16 e) {
+    auto v = Teakra::Disassembler::GetTokenList(o, e, std::nullopt);
+    std::string j;
+    for (size_t k = 0; k < v.size(); ++k) { if (k) j += "    "; j += v[k]; }
+    return j == Teakra::Disassembler::Do(o, e, std::nullopt);
+}
+int dsm_text(u16 o, u16 e, char* buf, int n) { std::string t = Teakra::Disassembler::Do(o, e, std::nullopt); int k = 0; for (; k < n - 1 && k < (int)t.size(); ++k) buf[k] = t[k]; buf[k] = 0; return (int)t.size(); }
+#endif
 }
